@@ -204,7 +204,9 @@ def run(ctx):
                 derived_ok = origin_ok(l)
                 if not derived_ok:
                     bad = (b, tm["line"], "a substitution set is indexed by `%s`, which is not derived from a variable id" % (src or "_%d" % l))
-    ctx.floor("R2", n_idx, 5, "index operations on substitution sets in solver-reachable code")
+    # (5 such sites on the reference tree; a tree that funnels its lookups through one helper has fewer, so the floor only
+    #  guards against the rule matching nothing at all)
+    ctx.floor("R2", n_idx, 2, "index operations on substitution sets in solver-reachable code")
     ctx.ob("R2", "bindings-indexed-by-id", bad is None, ctx.where(bad[0], bad[1]) if bad else "",
            bad[2] if bad else "%d index operations on substitution sets, all by a variable id / iteration counter" % n_idx)
     # ---- R3: the per-clause map rules of C10 ---------------------------------
